@@ -336,7 +336,7 @@ def run_shard(spec, workdir):
                 res["violations"].append(v)
             if exc is not None:
                 _rc.bump(res["hist"]["exceptions"], exc["type"])
-        if k < 1 and spec.get("shard", 0) == 0:
+        if not res["samples"] and spec.get("shard", 0) == 0:
             res["samples"].append({"recipe": recipe, "config": cfg})
     # ---- wide operations: more tasks in flight at once than any bound the scheduler might put on the
     # set of futures it waits on (each op of these plans has 1050-1500 one-chunk tasks)
